@@ -361,15 +361,49 @@ Theorem C01_tree_fuel_suffices row f ts e rest :
 Proof. exact (tree_fuel_suffices row f ts e rest). Qed.
 Print Assumptions C01_tree_fuel_suffices.
 
-(* every statement `NAME[k0] = rhs` of the subset: the cell assigned is (row NAME, k0) and the cells read are exactly
-   the VARIABLE / {PARAMETER} / <ERROR> matches of the statement text, in textual order, each at the index written
-   (0 when none is written): no term is lost, none is read at another lag *)
+(* every statement `NAME[k0] = rhs` of the subset: the cell assigned is (row NAME, k0) — a left-hand lead or lag k0 is kept —
+   and the series terms of the right-hand side AS WRITTEN (st: value, condition, alternative) are exactly the VARIABLE /
+   {PARAMETER} / <ERROR> matches of the statement text, in textual order, each at the index written (0 when none is written):
+   no term is lost, none is named at another lag; the expression evaluated reads exactly these terms (as a set: a branch
+   shared by `and` / `or` occurs twice in the nesting of conditionals) *)
 Theorem C01_reads_exactly_the_written_terms row eq y i k0 e :
   stmt_of_equation row eq = Some (y, SAssign i k0 e) ->
   row y = Some i /\
-  flat_map (match_read row) (matches_of (scan_items eq)) = somes ((i, k0) :: expr_reads string e).
+  exists st, e = fold_ints (denote st) /\
+    flat_map (match_read row) (matches_of (scan_items eq)) = somes ((i, k0) :: test_reads st) /\
+    (forall xk, In xk (expr_reads string e) <-> In xk (test_reads st)).
 Proof. exact (statement_terms_exact row eq y i k0 e). Qed.
 Print Assumptions C01_reads_exactly_the_written_terms.
+(* … without a conditional expression the evaluation order is the textual order too *)
+Theorem C01_reads_in_textual_order_without_conditional row eq y i k0 e e0 :
+  stmt_of_equation row eq = Some (y, SAssign i k0 e) ->
+  src_of_tokens row (lex_items LNone (scan_items eq)) = Some (y, i, k0, SVal e0) ->
+  e = fold_ints e0 /\ flat_map (match_read row) (matches_of (scan_items eq)) = somes ((i, k0) :: expr_reads string e).
+Proof. exact (statement_terms_exact_plain row eq y i k0 e e0). Qed.
+Print Assumptions C01_reads_in_textual_order_without_conditional.
+
+(* conditional expressions `a if c else b` (c: comparisons joined by not / and / or, Python's precedences): the nesting of
+   Eval conditionals that denotes it names exactly the terms of c, a and b *)
+Theorem C01_conditional_names_exactly_its_terms c a b xk :
+  In xk (expr_reads string (mk_if c a b)) <-> In xk (cond_reads c) \/ In xk (expr_reads string a) \/ In xk (expr_reads string b).
+Proof. exact (mk_if_reads c a b xk). Qed.
+Print Assumptions C01_conditional_names_exactly_its_terms.
+(* folding integer-literal subtrees (CPython computes them on ints: -0 is 0) changes no read *)
+Theorem C01_int_folding_keeps_reads (e : sexpr) : expr_reads string (fold_ints e) = expr_reads string e.
+Proof. exact (fold_ints_reads e). Qed.
+Print Assumptions C01_int_folding_keeps_reads.
+Theorem C01_conditional_instance :
+  stmt_of_equation (row_of ["Y"; "X"; "C"; "W"]) "Y = X[-1] if C > 0 else W" =
+    Some ("Y", SAssign 0 0%Z (EIf CGt (ERead 2 0%Z) (ENum "0") (ERead 1 (-1)%Z) (ERead 3 0%Z))) /\
+  src_of_tokens (row_of ["Y"; "X"; "C"; "W"])
+      (lex_items LNone (scan_items "Y = X if not C >= 1 and (W < X or X == 2) else W if C != 0 else -X")) =
+    Some ("Y", 0, 0%Z,
+          SIf (ERead 1 0%Z)
+              (SAnd (SNot (SCmp CGe (ERead 2 0%Z) (ENum "1")))
+                    (SOr (SCmp CLt (ERead 3 0%Z) (ERead 1 0%Z)) (SCmp CEq (ERead 1 0%Z) (ENum "2"))))
+              (SIf (ERead 3 0%Z) (SCmp CNe (ERead 2 0%Z) (ENum "0")) (SVal (ENeg (ERead 1 0%Z))))).
+Proof. exact conditional_instance. Qed.
+Print Assumptions C01_conditional_instance.
 
 (* the statements of the program are those of the symbols build_model_definition emits, in SYMBOL-LIST order; each
    comes from a statement of the script whose left-hand name is the symbol's name, and writes that name's row *)
@@ -447,6 +481,15 @@ Section C01_pass.
               (program_map string num lit p) ((v, None), []).
   Proof. exact (script_pass_is_fold num add sub mul div pow neg absf ltb leb eqb zero fun1 fun2 flagged lit p catch t v). Qed.
 
+  (* a conditional evaluates its comparison and then ONLY the branch taken; the other branch is neither evaluated nor read *)
+  Theorem C01_conditional_reads_only_the_branch_taken o (l r a b : sexpr) catch t v x y ll lr :
+    eval_expr catch t v (expr_map string num lit l) = (EVal x, ll) ->
+    eval_expr catch t v (expr_map string num lit r) = (EVal y, lr) ->
+    eval_expr catch t v (expr_map string num lit (EIf o l r a b)) =
+    (let '(res, lx) := eval_expr catch t v (expr_map string num lit (if cmp_sem num ltb leb eqb o x y then a else b))
+     in (res, (ll ++ lr ++ lx)%list)).
+  Proof. exact (conditional_short_circuit num add sub mul div pow neg absf ltb leb eqb zero fun1 fun2 flagged lit o l r a b catch t v x y ll lr). Qed.
+
   (* one statement: the value of its right-hand side goes into its left-hand cell; nothing else happens *)
   Theorem C01_statement_effect y k (e : sexpr) catch t v x le q :
     eval_expr catch t v (expr_map string num lit e) = (EVal x, le) ->
@@ -468,6 +511,7 @@ Print Assumptions C01_pass_accesses_are_the_written_terms.
 Print Assumptions C01_feasible_period_reads_at_written_offsets.
 Print Assumptions C01_pass_gauss_seidel.
 Print Assumptions C01_pass_is_gauss_seidel_fold.
+Print Assumptions C01_conditional_reads_only_the_branch_taken.
 Print Assumptions C01_statement_effect.
 Print Assumptions C01_value_depends_only_on_written_terms.
 
@@ -494,6 +538,18 @@ Theorem C01_program_rows_declared script names (p : sprogram) :
   forall x k, In (x, k) (prog_terms string p) -> (x < length names)%nat.
 Proof. exact (program_rows_declared script names p). Qed.
 Print Assumptions C01_program_rows_declared.
+(* Y = X[-1] if C > 0 else W at t = 1 with C = 2: reads C[1] and X[0], writes Y[1]; W is never touched *)
+Theorem C01_conditional_pass_instance :
+  match fprogram_of_script "Y = X[-1] if C > 0 else W" with
+  | Some (names, p) =>
+    names = ["Y"; "X"; "C"; "W"] /\
+    f_eval_pass [] false p 1%Z [[0; 0]; [3; 4]; [2; 2]; [7; 7]]%float
+    = (([[0; 3]; [3; 4]; [2; 2]; [7; 7]]%float, None),
+       [Acc false 2 1%Z (Some 1); Acc false 1 0%Z (Some 0); Acc true 0 1%Z (Some 1)])
+  | None => False
+  end.
+Proof. exact conditional_pass. Qed.
+Print Assumptions C01_conditional_pass_instance.
 Theorem C01_pass_instance :
   match fprogram_of_script scriptC with
   | Some (_, p) =>
